@@ -156,6 +156,7 @@ func init() {
 			var m *meta.Meta
 			var sealed []byte
 			var addErr error
+			sameOptTwice := false
 			reader := func(mm interface {
 				GetBytes(string) ([]byte, error)
 				GetEncryptedString(string, []byte) (string, error)
@@ -204,6 +205,12 @@ func init() {
 					if addErr != nil {
 						return
 					}
+					// the SAME option values applied to a second token must encrypt again
+					if d2, err := delegation.New(iss.id, aud.id, command.Top(), policy.Policy{}, o1, o2); err == nil {
+						a, _ := d.Meta().GetBytes("s1")
+						b, _ := d2.Meta().GetBytes("s1")
+						sameOptTwice = a != nil && bytes.Equal(a, b)
+					}
 					if c.Seal {
 						var b []byte
 						if b, _, addErr = d.ToSealed(iss.priv); addErr != nil {
@@ -226,6 +233,11 @@ func init() {
 					v, addErr = invocation.New(iss.id, aud.id, command.Top(), []cid.Cid{}, o1, o2)
 					if addErr != nil {
 						return
+					}
+					if v2, err := invocation.New(iss.id, aud.id, command.Top(), []cid.Cid{}, o1, o2); err == nil {
+						a, _ := v.Meta().GetBytes("s1")
+						b, _ := v2.Meta().GetBytes("s1")
+						sameOptTwice = a != nil && bytes.Equal(a, b)
 					}
 					if c.Seal {
 						var b []byte
@@ -266,6 +278,9 @@ func init() {
 			// freshness and confidentiality
 			if bytes.Equal(s1, s2) {
 				rep.violation(json.RawMessage(raw), "two different ciphertexts", "identical", "two encryptions of the same value are identical")
+			}
+			if sameOptTwice {
+				rep.violation(json.RawMessage(raw), "two different ciphertexts", "identical", "the same WithEncryptedMeta option applied to two tokens stores the very same ciphertext in both")
 			}
 			if len(pt) >= 8 {
 				if bytes.Contains(s1, pt[:8]) || bytes.Contains(s1, pt[len(pt)-8:]) {
@@ -357,6 +372,17 @@ func init() {
 					rep.violation(json.RawMessage(raw), "the plaintext", gerr.Error(), "reading back with the same key failed")
 				} else if !bytes.Equal(got, pt) {
 					rep.violation(json.RawMessage(raw), "the plaintext unchanged", fmt.Sprintf("%d bytes, different", len(got)), "the value read back differs from the value added")
+				} else if c.API == "bytes" {
+					// what was returned stays what it is: later reads (other entries, other keys) must not change it
+					_, _ = gB("s2", gk)
+					_, _ = gB("s2", keyFor("good2"))
+					_, _ = gS("s2", gk)
+					if other := meta.NewMeta(); other.AddEncrypted("o", bytes.Repeat([]byte{0x5a}, len(pt)+3), gk) == nil {
+						_, _ = other.GetEncryptedBytes("o", gk)
+					}
+					if !bytes.Equal(got, pt) {
+						rep.violation(json.RawMessage(raw), "the plaintext unchanged", "overwritten by a later read", "the bytes returned by GetEncryptedBytes were changed by later reads")
+					}
 				}
 			case goodGet && gerr == nil:
 				rep.violation(json.RawMessage(raw), "an error", fmt.Sprintf("%d bytes returned", len(got)), "data returned for a wrong key or a modified ciphertext")
